@@ -280,11 +280,12 @@ Definition max_i32 : Z := 2147483647.
 Definition in_i32 (z : Z) : bool := (min_i32 <=? z) && (z <=? max_i32).
 Definition default_desc : string := "No Description"%string.
 
-(* ruleDescription? : the raw text between the quotes (the listener does not unquote it) *)
-Definition pdesc (ts : list token) : string * list token :=
+(* ruleDescription? : unquoted like every other string literal (unquoteString); a malformed
+   escape is an error *)
+Definition pdesc (ts : list token) : option (string * list token) :=
   match ts with
-  | TStr _ raw :: r => (raw, r)
-  | _ => (default_desc, ts)
+  | TStr dq raw :: r => match unquote dq raw with Some d => Some (d, r) | None => None end
+  | _ => Some (default_desc, ts)
   end.
 
 (* salience? *)
@@ -300,7 +301,9 @@ Definition prule (pe : parser expr) : parser rule :=
   fun ts =>
   match ts with
   | TRule :: TName n :: ts1 =>
-      let (d, ts2) := pdesc ts1 in
+      match pdesc ts1 with
+      | None => None
+      | Some (d, ts2) =>
       match psalience ts2 with
       | Some (sal, TLBrace :: TWhen :: ts3) =>
           match pe ts3 with
@@ -313,6 +316,7 @@ Definition prule (pe : parser expr) : parser rule :=
           | _ => None
           end
       | _ => None
+      end
       end
   | _ => None
   end.
